@@ -110,3 +110,25 @@ class SeqRaw:
 
     def __repr__(self):
         return f"seqraw[{tname(self.elem)}]"
+
+
+class UnionT:
+    """one of several container / class hints (used for parameters such as `params: Sequence | dict | None`)"""
+
+    def __init__(self, members):
+        self.members = list(members)
+
+    def __repr__(self):
+        return "Union[" + ",".join(tname(m) for m in self.members) + "]"
+
+
+def class_of_hint(t):
+    if isinstance(t, ListT):
+        return list
+    if isinstance(t, TupleT):
+        return tuple
+    if isinstance(t, DictT):
+        return dict
+    if isinstance(t, SetT):
+        return set
+    return t if isinstance(t, type) else None
